@@ -226,43 +226,46 @@ Theorem Glue_document_functions_commute :
   (forall nm t, X.registered (nm' nm) (emb t) = M.registered nm t []) /\
   (forall a b, X.tree_eqb (emb a) (emb b) = M.tree_eqb a b) /\
   (forall p t, X.remove_at p (emb t) = emb (M.remove_at p t)) /\
-  (forall v t, RQ.count_id v t = List.length (X.carriers v (emb t))).
+  (forall v t, List.length (M.with_id v (M.all_ids t [])) = List.length (X.carriers v (emb t))).
 Proof.
   split; [exact subtree_emb|]. split; [exact first_sig_emb|]. split; [exact registered_emb_root|].
-  split; [exact tree_eqb_emb|]. split; [exact remove_at_emb|exact count_id_emb].
+  split; [exact tree_eqb_emb|]. split; [exact remove_at_emb|exact all_ids_count].
 Qed.
 Print Assumptions Glue_document_functions_commute.
 
-(* the pre-check requests go through (C10) IS the pre-check C01 is proved about *)
+(* the enveloping pre-check: ONE predicate in the three models - Xmlsec.precheck (C10, C16; it counts the carriers of the
+   ID among the elements of ANY name, as sigver._enveloped_signature_ok does), Request.enveloped_ok (now simply
+   Xmlsec.precheck) and the pre-check C01 is proved about *)
+Theorem Glue_xmlsec_precheck_is_C01_precheck :
+  forall doc nm i, X.precheck (emb doc) (nm' nm) i = M.precheck doc nm i.
+Proof. exact xmlsec_precheck_is_xsw_precheck. Qed.
+Print Assumptions Glue_xmlsec_precheck_is_C01_precheck.
+
 Theorem Glue_request_precheck_is_C01_precheck :
-  forall doc nm i, X.precheck (emb doc) (nm' nm) i = RQ.enveloped_ok doc nm i.
-Proof. exact enveloped_ok_is_xsw_precheck. Qed.
+  forall doc nm i, X.precheck (emb doc) (nm' nm) i = RQ.enveloped_ok doc nm i /\ RQ.enveloped_ok doc nm i = M.precheck doc nm i.
+Proof. intros doc nm i. split; [exact (enveloped_ok_is_xsw_precheck doc nm i)|reflexivity]. Qed.
 Print Assumptions Glue_request_precheck_is_C01_precheck.
 
-(* Xmlsec.precheck ALONE (without Request.v's count of carriers) is implied by it ... *)
-Theorem Glue_xmlsec_precheck_is_weaker :
-  forall doc nm i, X.precheck (emb doc) (nm' nm) i = true -> M.precheck doc nm i = true.
-Proof. exact xsw_precheck_implies_xmlsec_precheck. Qed.
-Print Assumptions Glue_xmlsec_precheck_is_weaker.
-
-(* ... and strictly weaker: the ID of the AuthnRequest also on an element of another name.  The library refuses
-   this document (_enveloped_signature_ok counts carriers of any name): Xmlsec.precheck / Xmlsec.check_signature_x
-   are NOT the code; no property uses them without the count. *)
-Theorem Glue_xmlsec_precheck_disagreement_witness :
-  M.precheck foreign_carrier_doc 1 (Some (s2l "a-1")) = true /\
+(* HISTORY: Xmlsec.precheck used to count the carriers among the elements of the asked NAME only
+   (precheck_registered_only) and accepted the ID of the AuthnRequest repeated on an element of another name, which the
+   library refuses (harness/glue_probe.py); today all models refuse it *)
+Theorem Glue_xmlsec_precheck_foreign_carrier_witness :
+  precheck_registered_only foreign_carrier_doc 1 (Some (s2l "a-1")) = true /\
   M.tool_verify true foreign_carrier_doc 1 (Some (s2l "a-1")) 5 = true /\
-  M.check_signature_x true foreign_carrier_doc 1 (Some (s2l "a-1")) [5] = true /\
+  M.precheck foreign_carrier_doc 1 (Some (s2l "a-1")) = false /\
+  M.check_signature_x true foreign_carrier_doc 1 (Some (s2l "a-1")) [5] = false /\
   X.precheck (emb foreign_carrier_doc) (nm' 1) (Some (s2l "a-1")) = false /\
   RQ.enveloped_ok foreign_carrier_doc 1 (Some (s2l "a-1")) = false.
-Proof. exact xmlsec_precheck_weaker_witness. Qed.
-Print Assumptions Glue_xmlsec_precheck_disagreement_witness.
+Proof. exact xmlsec_precheck_foreign_carrier_witness. Qed.
+Print Assumptions Glue_xmlsec_precheck_foreign_carrier_witness.
 
 (* _check_signature after certificate selection: one verdict *)
 Theorem Glue_check_signature_x_agrees :
   forall dupfail doc nm i certs,
+    X.check_signature_x (pol_of dupfail) (emb doc) (nm' nm) i certs = M.check_signature_x dupfail doc nm i certs /\
     X.check_signature_x (pol_of dupfail) (emb doc) (nm' nm) i certs =
     RQ.enveloped_ok doc nm i && existsb (M.tool_verify dupfail doc nm (RQ.node_id_arg i)) certs.
-Proof. exact check_signature_x_emb. Qed.
+Proof. intros. split; [apply check_signature_x_is_xmlsec|apply check_signature_x_emb]. Qed.
 Print Assumptions Glue_check_signature_x_agrees.
 
 (* C01_relied_is_covered for requests: a signed request that passes the signature check is covered in C01's sense -
